@@ -190,7 +190,8 @@ class C09(PropertyCheck):
             "(wholly left, wholly right, empty, inverted, reflect slices starting strictly beyond the sequence end "
             "incl. empty ones and several per batch), boolean masks (given full, transposed, strided, "
             "caller-expanded or in a broadcastable (N,1)/(1,T) shape), random_shift with chosen dyadic draws / "
-            "recorded genuine draws / extreme float32 draws with proportions k/len that float32 rounds up, "
+            "recorded genuine draws / extreme float32 draws with proportions k/len that float32 rounds up / forced "
+            "rounding ties (proportions k/len and dyadic draws on which double and exact arithmetic differ), "
             "training and eval set directly, after toggling, and through a parent module; functional, module, "
             "module-inside-a-parent and pydrobert.torch.util entry points; arguments must come back unmodified; "
             "malformed stream (wrong ranks, shapes, modes, illegal pads). Non-trivial: some non-zero pad / a "
@@ -201,9 +202,11 @@ class C09(PropertyCheck):
         "torch masked_select / masked_scatter / gather / boolean indexing taken at their documented row-major meaning",
         "integer- or half-integer-valued data: float arithmetic of the implementation is exact on the generated "
         "inputs (a fractional pad value reaches the integer-celled model scaled by its denominator)",
-        "random_shift: uniform draws injected through torch.rand_like; the model computes floor(prop*len*u) in exact "
-        "rational arithmetic with prop the configured double; cases where IEEE double arithmetic (what the repaired "
-        "code does) gives another floor are counted as rounding ties and only get the draw-free predicate",
+        "random_shift: uniform draws injected through torch.rand_like; `model` computes floor(prop*len*u) in exact "
+        "rational arithmetic with prop the configured double, `model_f64` (randomShiftF64) in IEEE double "
+        "arithmetic like the repaired code; the implementation is compared with model_f64 on every request and "
+        "with model where both give the same floor; rounding ties (forced in the `ties` stream) get the draw-free "
+        "predicate with the documented exclusive bound",
     ]
     quick_budget_s = 75
     thorough_budget_s = 800
@@ -214,7 +217,8 @@ class C09(PropertyCheck):
         yield from self.edge_cases()
         gens = [self.gen_pad(rng, 1100 * n), self.gen_chunk(rng, 1300 * n), self.gen_masked(rng, 350 * n),
                 self.gen_shift(rng, 400 * n), self.gen_malformed(rng, 175 * n),
-                self.gen_shift_rounding(rng, 150 * n), self.gen_sizes(rng, 120 * n),
+                self.gen_shift_rounding(rng, 150 * n), self.gen_shift_ties(rng, 60 * n),
+                self.gen_sizes(rng, 120 * n),
                 self.gen_shapes(rng, 240 * n),
                 self.gen_large(rng, {"quick": 144, "thorough": 576, "search": 432}[tier])]
         if tier != "quick":
@@ -577,6 +581,60 @@ class C09(PropertyCheck):
             if rng.random() < 0.3:
                 c["p1"] = c["p0"]
                 c["scalar_prop"] = True
+            yield c
+
+    _ties = None
+
+    @classmethod
+    def tie_triples(cls):
+        """{len: [(k, u), ...]} for len <= 40, k <= 2 len, u a dyadic draw: with prop the double k/len, IEEE double
+        arithmetic (what the repaired code does: fl(fl(prop * len) * u)) and exact arithmetic give DIFFERENT
+        floors — e.g. prop = 2/3, len = 3, u = 1/2: fl(prop * 3) = 2.0, one element; exactly prop * 3 / 2 < 1,
+        none. On these requests the library must follow the double-precision model (randomShiftF64)."""
+        if cls._ties is None:
+            out = {}
+            for L in range(3, 41):
+                for k in range(1, 2 * L + 1):
+                    p = k / L
+                    for u in ("1/2", "1/4", "3/4", "5/8", "7/8", "15/16", "63/64"):
+                        uf = Fraction(u)
+                        if int((p * float(L)) * float(uf)) != int(Fraction(p) * L * uf):
+                            out.setdefault(L, []).append((k, u))
+            cls._ties = out
+        return cls._ties
+
+    def gen_shift_ties(self, rng, count):
+        """Forced rounding ties (audit round E): proportions k/len and dyadic draws for which double and exact
+        arithmetic disagree, on one or both sides, next to rows without a tie."""
+        ties = self.tie_triples()
+        dy = ["0", "1/2", "1/4", "3/4", "5/8", "15/16", "63/64"]
+        for _ in range(count):
+            mode = rng.choice(MODES)
+            L = rng.choice(sorted(ties))
+            cand = [(k, u) for k, u in ties[L] if k <= L or mode != "reflect"]
+            if not cand:
+                mode, cand = "constant", ties[L]
+            N = rng.randint(1, 3)
+            row = rng.randrange(N)
+            lens = [rng.randint(1, L) for _ in range(N)]
+            lens[row] = L
+            props, draws = [], [[rng.choice(dy) for _ in range(N)] for _ in range(2)]
+            sides = rng.choice([(0,), (1,), (0, 1)])
+            for side in range(2):
+                if side in sides:
+                    k, u = rng.choice(cand)
+                    props.append(k / L)
+                    draws[side][row] = u
+                else:
+                    props.append(rng.choice([0.0, 0.25, 0.5, 1.0]))
+            trail = rng.choice([[], [], [2]])
+            c = {"fn": "shift", "entry": rng.choice(["functional", "module", "module_parent"]),
+                 "dtype": rng.choice(["float32", "float64", "int64"]), "trail": trail, "value": rng.choice(VALUES),
+                 "mode": mode, "N": N, "T": L, "x": mk_x(rng, N, L, prod(trail)), "lens": lens,
+                 "p0": frac_str(props[0]), "p1": frac_str(props[1]), "training": True, "stream": "ties",
+                 "draws": draws}
+            if props[0] == props[1]:
+                c["scalar_prop"] = rng.random() < 0.5
             yield c
 
     _crossing = None
@@ -950,7 +1008,7 @@ class C09(PropertyCheck):
                 # the amounts IEEE double arithmetic (the repaired code) and float32 arithmetic (the code before
                 # fixes/C09-random-shift-float32-bound.diff) give, next to the exact floor the model computes
                 import numpy as np
-                tie, f32, exact = False, [], []
+                tie, f32, exact, f64 = False, [], [], []
                 for side, p in enumerate(prop):
                     for n, u in enumerate(rec[0].reshape(2, -1)[side].tolist()):
                         L = case["lens"][n]
@@ -958,11 +1016,16 @@ class C09(PropertyCheck):
                         f32.append(int(np.float32(a32 * np.float32(u))))
                         ex = int(Fraction(p) * L * Fraction(float(u)))
                         exact.append(ex)
-                        tie = tie or int((p * float(L)) * float(u)) != ex
+                        f64.append(int((p * float(L)) * float(u)))
+                        tie = tie or f64[-1] != ex
+                # NOT an observation of the library: python-double arithmetic, kept only to cross-check the Lean
+                # rounding model roundBits 53 (machinery). What the library did is obs["lens"] / obs["rows"],
+                # compared with the Lean double-precision model `model_f64` in compare().
                 obs["rounding_tie"] = tie
                 k = len(f32) // 2
                 obs["f32_lens"] = [L + a + b for L, a, b in zip(case["lens"], f32[:k], f32[k:])]
                 obs["exact_lens"] = [L + a + b for L, a, b in zip(case["lens"], exact[:k], exact[k:])]
+                obs["f64_amounts"] = [[a, b] for a, b in zip(f64[:k], f64[k:])]
             return finish(obs, snap)
         raise ValueError(f"unknown fn {fn}")
 
@@ -1191,8 +1254,15 @@ class C09(PropertyCheck):
             return [] if got == model["result"] else [f"shapes: impl {got} ({impl.get('message')}), "
                                                       f"model {model['result']}"]
         self.descale(case, model)
-        if case["fn"] == "shift" and impl.get("rounding_tie"):
-            return []
+        if case["fn"] == "shift" and "model_f64" in model:
+            # the library computes the amounts in double precision: it must ALWAYS equal the double-precision
+            # model (randomShiftF64, C09_shift_float64), and the exact-arithmetic model (randomShift,
+            # C09_shift_train) wherever the two arithmetics give the same floor (audit round E: a rounding tie
+            # used to be compared with nothing)
+            out = [f"[double-precision model] {d}" for d in self.same(case, impl, model["model_f64"])]
+            if not impl.get("rounding_tie"):
+                out += self.same(case, impl, model["model"])
+            return out
         return self.same(case, impl, model["model"])
 
     # ------------------------------------------------------------------ the property on the implementation
@@ -1286,9 +1356,11 @@ class C09(PropertyCheck):
             # machinery: the Lean rounding models (roundBits 24 / 53) against numpy's float32 / python's double
             lean32 = [L + a + b for L, (a, b) in zip(case["lens"], model["amounts_f32"])]
             lean_tie = model["amounts_f64"] != model["amounts_exact"]
-            if lean32 != impl["f32_lens"] or lean_tie != impl["rounding_tie"]:
+            if lean32 != impl["f32_lens"] or lean_tie != impl["rounding_tie"] \
+                    or model["amounts_f64"] != impl.get("f64_amounts", model["amounts_f64"]):
                 raise AssertionError(f"Lean rounding model differs from numpy: f32 {lean32} vs {impl['f32_lens']}, "
-                                     f"float64 tie {lean_tie} vs {impl['rounding_tie']}")
+                                     f"float64 tie {lean_tie} vs {impl['rounding_tie']}, float64 amounts "
+                                     f"{model['amounts_f64']} vs {impl.get('f64_amounts')}")
         if fn == "shift":
             if impl.get("f32_lens") is not None and impl["lens"] == impl["f32_lens"] != impl.get("exact_lens"):
                 sig = SIG_F32        # the amounts float32 arithmetic gives (prop rounded to float32 first)
@@ -1307,8 +1379,8 @@ class C09(PropertyCheck):
         return fails
 
     def shift_bounds(self, case, impl, sig=None):
-        """draw-free part of the random-shift clause: some (l, r) with 0 <= l <= p0*len, 0 <= r <= p1*len,
-        l + r = out_len - len and the original embedded at offset l."""
+        """draw-free part of the random-shift clause: some (l, r) with 0 <= l < p0*len, 0 <= r < p1*len (0 where
+        the product is 0), l + r = out_len - len and the original embedded at offset l."""
         fails = []
         p0, p1 = Fraction(case["p0"]), Fraction(case["p1"])
         for n, L in enumerate(case["lens"]):
@@ -1317,9 +1389,12 @@ class C09(PropertyCheck):
             tot = impl["lens"][n] - L
             orig = case["x"][n][:L]
             ok = False
+            # the documented bound is EXCLUSIVE ("0.5 * 10 = 5 is an exclusive bound"): the draws are < 1, so
+            # an amount is < prop * len, or 0 when prop * len = 0 (C09_shift_float64 proves it of the model)
+            below = lambda a, b: a < b or (a == 0 and b == 0)
             for l in range(0, tot + 1):
                 r = tot - l
-                if l <= p0 * L and r <= p1 * L and impl["rows"][n][l:l + L] == orig:
+                if below(l, p0 * L) and below(r, p1 * L) and impl["rows"][n][l:l + L] == orig:
                     ok = True
                     break
             if tot < 0 or not ok:
@@ -1559,6 +1634,11 @@ class C09(PropertyCheck):
                 t.append("shift.mode_toggled")
             if isinstance(impl, dict) and impl.get("rounding_tie"):
                 t.append("shift.rounding_tie")
+                t.append(f"shift.rounding_tie.{case['mode']}")
+                if "exact_lens" in impl and impl.get("lens") != impl["exact_lens"]:
+                    t.append("shift.rounding_tie.library_differs_from_exact_model")
+            if case.get("stream") == "ties":
+                t.append("shift.stream=ties")
             if isinstance(impl, dict) and impl.get("f32_lens") is not None \
                     and impl["f32_lens"] != impl.get("exact_lens"):
                 t.append("shift.float32_would_differ")
